@@ -83,6 +83,8 @@ unsigned MessageBase::extract_header(const f8String& from, char *len, char *mtyp
 unsigned MessageBase::extract_trailer(const f8String& from, f8String& chksum)
 {
 	f8String tag;
+	if (from.size() < 7) // too short to hold 10=XXX^A
+		return 0;
 	return extract_element(from.data() + from.size() - 7, 6, tag, chksum);
 }
 
